@@ -58,7 +58,7 @@ def model_check(ctx, quick):
         if must:
             return key, ctx.tlc("TasksImpl", cfg_text=vlib.cfg_text(constants=c, invariants=invs, view="View"), timeout=3000, workers=4)
         return key, ctx.tlc("TasksImpl", cfg_text=vlib.cfg_text(constants=c, invariants=invs, view="View"), timeout=1500,
-                            want_ok=False, count=False, workers=4)
+                            want_ok=False, count=False, workers=1)   # one worker: the same shortest counterexample every run
     res = dict(ctx.pmap(job, jobs, par=4))
     names = {"cex-nodue": "pinned_tree_schedule_handler_without_due_check", "cex-lost": "requeue_while_running_past_max_delay",
              "cex-stale": "stale_handler_decision_windows", "cex-reset": "executeAt_cleared_without_lock"}
